@@ -345,6 +345,9 @@ impl Grammar for CoreGrammar {
                 }
                 out.push(Self::form("apply", vec![(FUN0 + 2, env), (INT, env), (LIST, env)], "apply-spread"));
                 out.push(Self::form("apply", vec![(FUNV0 + 1, env), (INT, env), (LIST, env)], "apply-spread"));
+                // two leading arguments before the list: their order matters
+                out.push(Self::form("apply", vec![(FUN0 + 2, env), (INT, env), (INT, env), (LIST, env)], "apply-spread2"));
+                out.push(Self::form("apply", vec![(FUNV0 + 1, env), (INT, env), (INT, env), (LIST, env)], "apply-spread2"));
                 out.push(Self::app(vec![(HO, env), (FUN0 + 1, env)], "higher-order"));
                 out.extend(self.tick(INT, env));
             }
